@@ -2378,6 +2378,7 @@ def c12_positive(ctx, kind, pre=False):
 
     def body(e, inp):
         e.solver.add(z3.ULE(inp["perm"], 0o7777))
+        e.model = None
         intrinsics3.FS[0] = FsLog(b"/t")
         dnames = [string(b"/")]
         if pre:
